@@ -21,6 +21,8 @@ def run(ctx):
     idcol_rule(ctx, syn)
     textlen_rule(ctx, prog)
     workdir_rule(ctx, syn)
+    from props.c11 import name_rule
+    name_rule(ctx, rid="C15.NAME")   # to_file(name) / from_file(name): the manifest or store file is written under the name given
     from props.c01 import expand_rule
     expand_rule(ctx, syn, rid="C15.EXPAND")   # the CSV writer serialises complex targets through this expansion (set_beginoffset / set_endoffset over Selector::iter)
     ctx.not_decided += ["text of values (the format stores values as text)", "file handling and stand-off members", "identifiers that contain the ';' separator (outside the claim)"]
